@@ -126,7 +126,7 @@ def run_shard(ctx):  # noqa: C901, PLR0912, PLR0915
     from mc.oracle import why_different  # noqa: PLC0415
 
     U, _ = e1.universe()
-    preds = ['none', 'is_tuple']
+    preds = ['none', 'tuple_or_none']
     cfgs = e1.configs(ctx.tier, predicates=preds)
     loaders = {h: Loader(h) for h in HISTORIES}
     pending = []  # (dsl, cfg, payload, has_unreg, sent)
